@@ -914,7 +914,12 @@ class IRGenerator:
                             if field.data_type.name in ('Float32', 'Float64'):
                                 # You can assign int to the default value of float type
                                 # However float type should always have default value in float
-                                default_value = float(default_value)
+                                try:
+                                    default_value = float(default_value)
+                                except (TypeError, OverflowError):
+                                    # Not a number (null, a tag) or too large:
+                                    # check() below reports it.
+                                    pass
                             field.data_type.check(default_value)
                         except ValueError as e:
                             raise InvalidSpec(
